@@ -255,6 +255,11 @@ func singleStore(a *ssa.Alloc) ssa.Value {
 				}
 			}
 		case *ssa.DebugRef:
+		case *ssa.Slice:
+			// read-only slicing of a local array
+			if sliceWritten(r) {
+				return nil
+			}
 		default:
 			return nil
 		}
